@@ -223,6 +223,37 @@ Proof.
 Qed.
 Print Assumptions C10_known_hosts_mtime_memo_refuted.
 
+(* ---- known_hosts MARKER lines (@revoked, @cert-authority) are never trust entries ---- *)
+(* a file as the lines it has for the host question: marker, trailing comment, names-the-host, key.  Whatever
+   reader that does not strip markers (in particular SSHKnownHosts._parse as written, [reader_as_written], tied by
+   the marker-lookup correspondence run): a key carried by marker lines only is never the lookup result *)
+Theorem C10_marker_lines_never_the_entry :
+  forall rd first ls sk, r_marker_blind rd = false -> plain_entry_has ls sk = false ->
+    lookup_lines rd first ls = None \/ exists k, lookup_lines rd first ls = Some k /\ k <> sk.
+Proof. exact marker_lines_never_the_entry. Qed.
+Print Assumptions C10_marker_lines_never_the_entry.
+
+(* strict mode, the presented key is on no NON-marker line for the host (revoked for it, a certificate authority
+   for it, under other hosts only, nowhere): nothing is offered, the attempt ends in ScrapliAuthenticationFailed *)
+Theorem C10_marker_protects_credentials :
+  forall rd first ls l s,
+    r_marker_blind rd = false -> strict s = true -> entry s = lookup_lines rd first ls ->
+    plain_entry_has ls (skey s) = false -> (l = Asyncssh -> agrees s) ->
+    no_offer (open_trace true l s) = true /\
+    (handshake_ok s = true -> ends_with AuthenticationFailed (open_trace true l s) = true).
+Proof. exact marker_protects_credentials. Qed.
+Print Assumptions C10_marker_protects_credentials.
+
+(* it IS a statement about the reader: refuted (witness "@revoked host K", the server presents K) for a reader that
+   strips the marker and files the rest as an entry, with or without tolerating trailing comments *)
+Theorem C10_marker_blind_reader_refuted :
+  marker_full reader_as_written /\ marker_full (mkR false true) /\
+  ~ marker_full (mkR true false) /\ ~ marker_full (mkR true true).
+Proof.
+  exact (conj (proj1 marker_full_as_written) (conj (proj2 marker_full_as_written) marker_blind_refuted)).
+Qed.
+Print Assumptions C10_marker_blind_reader_refuted.
+
 (* ---- asyncssh: the hypothesis on its matcher is needed (names vs. peer address) ---- *)
 (* with NO assumption on what asyncssh trusts the statement is false of the asyncssh transport: asyncssh matches
    known_hosts entries by the dialled name OR the peer address; another key under the name + the server's key
